@@ -141,7 +141,10 @@ class Ref:
         if R[0] == 'cols':
             _, s, c1, c2 = R
             s = host if s is None else s
-            return [[(s, c, r) for c in range(c1, c2 + 1)] for r in range(self.nrows[s])]
+            # whole columns reach as far as the sheet does: the stored rows, extended by cells that were set by hand below
+            # them (edit-and-recalculate, C04); during the static dependency analysis there are no overrides
+            n = max([self.nrows[s]] + [r + 1 for (s2, _c, r) in (getattr(self, '_ov', None) or {}) if s2 == s])
+            return [[(s, c, r) for c in range(c1, c2 + 1)] for r in range(n)]
         if R[0] == 'ref':
             return [[self.cell_of(R, host)]]
         raise ValueError(R)
@@ -289,6 +292,7 @@ class Ref:
         raise Unknown('text in arithmetic')
 
     def ev(self, ast, host, ov, memo):
+        self._ov = ov
         k = ast[0]
         if k in ('num', 'str', 'bool'):
             return ast[1]
